@@ -11,6 +11,7 @@ import OmbottModel.Gen.Routerbuiltin
 import OmbottModel.Lemmas.RouterBuiltinEnv
 import OmbottModel.Lemmas.RouterBuiltinHist
 import OmbottModel.Lemmas.AppRoute
+import OmbottModel.Lemmas.RouterHookNames
 /-!
 C01 — Route resolution equals the plain rule-by-rule semantics.
 Property theorems only; helper lemmas live in `Lemmas/Router*.lean`.
@@ -397,6 +398,23 @@ theorem filter_guard_builtin (upper : Str → Str) (ops : List Op) (hok : ∀ op
 
 end Builtin
 
+/-- **Route hooks do not change what a handler receives.**  After every history of editing calls
+(registrations, removals, hook installations and removals), one more `RadiRouter.add_hook` /
+`Ombott.on_route` / per-prefix 404 handler — on the pattern of a registered rule, on a prefix of it
+or anywhere else, spelled with whatever wildcard names, accepted or refused — leaves the answer of
+every lookup as it was, the collected hooks aside: the same handler under the same method with the
+same keyword arguments (so still the names of the rule the handler was registered under,
+`params_are_rule_names`), the same 404, the same 405 with the same `Allow`. -/
+theorem hooks_keep_handler_kwargs (upper : Str → Str) (ops : List EditOp) (hok : ∀ op ∈ ops, EditOK op)
+    (cenv : CompileEnv) (rule : Str) (hook : Nat) (pt : Bool) (hh : EditOK (.addHook cenv rule hook pt))
+    (env : FilterEnv) (hs : NoSel env) (path : Str) (ms : List Str) :
+    (((Router.editRun upper ops).addHook cenv rule hook pt).1.resolve env path ms).noHooks =
+      ((Router.editRun upper ops).resolve env path ms).noHooks := by
+  have h1 := editRun_inv upper ops hok
+  have h2 := h1.addHook cenv rule hook pt hh
+  obtain ⟨hr, ho⟩ := addHook_tables (Router.editRun upper ops) cenv rule hook pt
+  exact resolve_noHooks_congr h1.inv h2.inv hr ho env hs path ms
+
 /-! ## the composed application (`Model/App.lean`): the handler event of `Ombott.__call__` -/
 
 /-- **`app_handler_kwargs`: end to end through `App.serve`, the handler event carries exactly the
@@ -660,6 +678,37 @@ example :
        resp.events.take 3 ==
          [.before 0, .routed, .handler (some ⟨2, "POST".toList, [("z".toList, .conv "int:12".toList)]⟩)]
      | _ => false) = true := by decide +kernel
+
+/-- `hooks_keep_handler_kwargs`: `/a/<x:int>` (GET), a per-prefix 404 handler on the same pattern
+spelled `/a/<k:int>`, `/a/<z:int>` (POST); then a route hook spelled `/a/<q:int>` -/
+def nvHookOps : List EditOp :=
+  [ .reg (.add nvCenv { rule := "/a/<x:int>".toList, methods := ["GET".toList], handler := 0 }),
+    .addHook nvCenv "/a/<k:int>".toList 1 true,
+    .reg (.add nvCenv { rule := "/a/<z:int>".toList, methods := ["POST".toList], handler := 2 }) ]
+
+theorem nvHook_addOK (a : AddArgs) (hr : Gen.paramToken ∉ a.rule)
+    (hstar : (match parseRule nvCenv a.rule with | .ok p => p.syms.getLast? | .error _ => none) ≠ some (.lit '*')) :
+    EditOK (.reg (.add nvCenv a)) := by
+  intro p hp
+  refine ⟨parseRule_noLitTok hr hp, ?_⟩
+  rw [hp] at hstar
+  exact hstar
+
+example : (∀ op ∈ nvHookOps, EditOK op) ∧ EditOK (.addHook nvCenv "/a/<q:int>".toList 3 false) := by
+  refine ⟨?_, fun p hp => parseRule_noLitTok (by decide) hp⟩
+  intro op hop
+  simp only [nvHookOps, List.mem_cons, List.mem_nil_iff, or_false] at hop
+  rcases hop with rfl | rfl | rfl
+  · exact nvHook_addOK _ (by decide) (by decide +kernel)
+  · exact fun p hp => parseRule_noLitTok (by decide) hp
+  · exact nvHook_addOK _ (by decide) (by decide +kernel)
+
+/-- … and both sides of its conclusion: the GET handler keeps `x`, the POST handler keeps `z` -/
+example :
+    (((Router.editRun asciiUpper nvHookOps).addHook nvCenv "/a/<q:int>".toList 3 false).1.resolve nvEnv
+        "/a/12".toList ["GET".toList]).noHooks = .found 0 "GET".toList [("x".toList, .conv "int:12".toList)] [] ∧
+    ((Router.editRun asciiUpper nvHookOps).resolve nvEnv "/a/12".toList ["POST".toList]).noHooks =
+      .found 2 "POST".toList [("z".toList, .conv "int:12".toList)] [] := by decide +kernel
 
 end NonVacuity
 
